@@ -402,3 +402,71 @@ def r05_9(ctx, run, rule='R05.9'):
                                                    '(entry kind STRING_TAG): a null, boolean or number element whose payload equals the name counts as a match', key)
     if n == 0:
         run.undecided(rule, 'functions::*', 'element-vs-name', 'no comparison of an array element payload with a name was found: not decided')
+
+
+# ------------------------------------------------------------------ name steps: Name and QuotedName are the same step
+
+def name_variants_alike(ctx, run, rule, only):
+    """A key-path element `Name(..)` and its quoted spelling `QuotedName(..)` select the same member: in every function that
+    branches on the element kind, the two variants lead to the same calls and the same kind of outcome."""
+    f = ctx.facts
+    ad = f.adts.get('keypath::KeyPath', {})
+    vs = [v['name'] for v in ad.get('variants', [])]
+    if 'Name' not in vs or 'QuotedName' not in vs:
+        run.undecided(rule, 'keypath::KeyPath', 'variants', 'KeyPath::Name / QuotedName not found (anchor lost)')
+        return
+    ni, qi = vs.index('Name'), vs.index('QuotedName')
+    n = 0
+    for p, b in sorted(f.bodies.items()):
+        if b.kind == 'Promoted' or not only(p):
+            continue
+        if not any('keypath::KeyPath' in str(l['ty'].get('s', '')) for l in b.locals):
+            continue
+        # blocks that switch on the discriminant of a KeyPath value (read from the type-checked MIR, not guessed from terms)
+        import re as _re
+        kp_discr = set()
+        for blk in b.blocks:
+            for st_ in blk['stmts']:
+                if st_['k'] == 'assign' and st_['rv']['k'] == 'discr' and not st_['place'].get('proj'):
+                    pl = st_['rv']['place']
+                    ty_ = _re.sub(r"^(&('\w+ )?(mut )?)+", '', str(b.local_ty(pl['local']).get('s', '')))
+                    if ty_.startswith('keypath::KeyPath') and all(e_['k'] == 'deref' for e_ in pl.get('proj', [])):
+                        kp_discr.add(st_['place']['local'])
+        kp_blocks = {blk['id'] for blk in b.blocks if blk['term']['k'] == 'switch' and blk['term']['discr']['k'] in ('copy', 'move')
+                     and blk['term']['discr']['place']['local'] in kp_discr}
+        if not kp_blocks:
+            continue
+        loops = natural_loops(b)
+        ex = Explorer(b, max_paths=4000)
+        sig = {ni: set(), qi: set()}
+        for s0 in [0] + sorted(loops):
+            for q in ex.explore(start=s0, stop=set(loops)):
+                var = None
+                for c in q.conds:
+                    t = c[0]
+                    if t[0] == 'discr' and c[1] == 'eq' and c[2] in (ni, qi) and len(c) > 3 and c[3] in kp_blocks:
+                        var = c[2]
+                if var is None:
+                    continue
+                calls = tuple(sorted({canon(e[1]).split('::')[-1] for e in q.calls() if e[1] in f.bodies}))
+                end = q.end[0]
+                if q.end[0] == 'return' and q.ret is not None:
+                    r = deref_all(q.ret)
+                    end = 'return:' + (r[1][2] if agg_variant(r) else r[0])
+                sig[var].add((calls, end))
+        if not sig[ni] and not sig[qi]:
+            continue
+        n += 1
+        loc = f'{b.file}:{b.line}'
+        if sig[ni] == sig[qi]:
+            run.proved(rule, p, 'name-variants', f'Name and QuotedName take the same {len(sig[ni])} path class(es)', loc)
+        elif not sig[ni] or not sig[qi]:
+            missing = 'QuotedName' if not sig[qi] else 'Name'
+            run.violation(rule, p, 'name-variants', f'only one spelling of a name step is handled here: {missing} falls into the catch-all arm, so a quoted key (e.g. {{"1"}} or {{"a b"}}) '
+                          'is treated differently from the same key unquoted (silently ignored or rejected)', loc)
+        else:
+            only_n = sorted(sig[ni] - sig[qi])[:1]
+            only_q = sorted(sig[qi] - sig[ni])[:1]
+            run.violation(rule, p, 'name-variants', f'Name and QuotedName are handled differently: Name-only {only_n}, QuotedName-only {only_q}', loc)
+    if n == 0:
+        run.undecided(rule, 'functions::*', 'name-variants', 'no function branching on the kind of a key-path element was found: not decided')
